@@ -121,6 +121,16 @@ CHECKS = {
         "over-approximation of the generator only at the explored sizes; exponential draw exactly 0.0 excluded; compensated "
         "configurations limited to the documented domain frequency*refrac<1000",
     ),
+    "C07": (
+        "model_checking", "DESIGN.md §3 C07",
+        "exhaustive event-sequence enumeration (observe / clear(keepshape) / dt change) on the real reducers against closed forms over the "
+        "events since the last clear; all boolean histories for the nine trace functions",
+        "For the ten shipped fold reducers (+ both EventReducer initial values) x dt {1,.5} x (tau,amplitude) x duration {0,2dt,2.5dt} x "
+        "inplace, every event sequence of length <=4 (quick) / <=5 (thorough) is replayed on a fresh reducer; peek/latest, dump order and "
+        "view(t) for every quarter-step time in the recorded range (scalar and per-element tensor) are compared with the closed-form "
+        "sums / elapsed times / running means computed from the event list.",
+        "float tolerance 1e-5; views beyond the range recorded since the last clear are not constrained; dt changes only at duration 0",
+    ),
 }
 
 PENDING_REASON = "check not built yet in this session (claimed in DESIGN.md; will move to checks when its exploration exists)"
